@@ -1,12 +1,12 @@
 SPECIFICATION Spec
 CONSTANTS
-  Key <- MCKey3
-  SizeKB <- MCSize3
-  PPKeys <- MCPP3
-  ValKeys <- MCVal3
+  Key <- MCKey
+  SizeKB <- MCSize
+  PPKeys <- MCPP
+  ValKeys <- MCVal
   Limits <- MCLimits
   MB = 1000
-  MaxFaults = 1
+  MaxFaults = 0
   MaxReqLen = 2
   Chunked = TRUE
   Variant = "fixed"
